@@ -105,7 +105,7 @@ def pre_regs(eng, st, b):
     return d
 
 
-def run_to_boundary(ctx, eng, b, st, script, maxcalls=8, first_only=False):
+def run_to_boundary(ctx, eng, b, st, script, maxcalls=8, first_only=False, cycle0=0):
     """call the real ExecuteMachineCycle until the real isFinished() holds again.
     returns list of (state, ncalls); exits/panics are left in eng.terminals"""
     emc = ctx.prog.func(CPU + "ExecuteMachineCycle").name
@@ -140,7 +140,7 @@ def run_to_boundary(ctx, eng, b, st, script, maxcalls=8, first_only=False):
         for s2 in cont:
             if n >= maxcalls:
                 raise Unsupported("instruction did not finish within %d machine cycles" % maxcalls)
-            s2.ghost["cycle"] = n + 1
+            s2.ghost["cycle"] = cycle0 + n + 1
             for (s3, _) in eng.call_function(s2, emc, [b.cpu]):
                 work.append((s3, n + 1))
     return finals
@@ -162,6 +162,7 @@ def instruction_lemma(ctx, eng, ce, b, op, cb=None):
     # lemma hypotheses: boundary, nothing to dispatch, running, F low nibble zero, no halt bug pending
     hyp = [z3.Not(z3.And(pre["ime"], pending_term(eng, st, b))), z3.Not(fld(eng, st, b, "halted")),
            z3.Not(fld(eng, st, b, "stopped")), z3.Not(fld(eng, st, b, "haltbug")), (pre["f"] & 0x0f) == 0]
+    hyp += boundary_hyps(eng, st, b)
     for h in hyp:
         st.pc.append(h)
     pre_state = st.fork()
@@ -250,7 +251,7 @@ def instruction_lemma(ctx, eng, ce, b, op, cb=None):
     return out, pre_state, specs
 
 
-ASPECTS = {"C01": ["regs", "flags", "mem", "frame", "flow", "nopanic"], "C02": ["cycles", "flow"], "C03": ["accesses", "flow"]}
+ASPECTS = {"C04": ["frame", "flow"], "C05": ["regs", "flags", "mem", "frame", "cycles", "flow"], "C01": ["regs", "flags", "mem", "frame", "flow", "nopanic"], "C02": ["cycles", "flow"], "C03": ["accesses", "flow"]}
 
 
 def opcode_chunks(nchunks=32):
@@ -287,5 +288,183 @@ def opcode_task(prop, chunk, idx):
 
 
 def cpu_replay(ctx, prop, ob, res):
+    from props.cpu_replay import replay_instruction
+    return replay_instruction(ctx, prop, ob, res)
+
+
+# ------------------------------------------------------------------ interrupts (C04) and HALT (C05)
+IBITS = ["vblank", "stat", "timer", "serial", "joypad"]
+ARCH_FIELDS = ["a", "b", "c", "d", "e", "f", "h", "l", "sp", "pc", "halted", "haltbug", "stopped"]
+
+
+def has_field(eng, b, name):
+    return eng.p.field_index(b.tid, name) is not None
+
+
+def boundary_hyps(eng, st, b):
+    """instruction boundary with no delayed-EI pending (if the implementation keeps such a flag)"""
+    hy = []
+    for nm in ("eiPending", "eiDelay", "imeScheduled", "enableInterrupts"):
+        if has_field(eng, b, nm):
+            v = fld(eng, st, b, nm)
+            if z3.is_bool(v):
+                hy.append(z3.Not(v))
+            else:
+                hy.append(v == 0)
+    return hy
+
+
+def prio_terms(eng, st, b):
+    """(index term 0..4 of the highest-priority pending interrupt, list of pending bools)"""
+    pend = [z3.And(ifld(eng, st, b, e + "Enabled"), ifld(eng, st, b, e + "Requested")) for e in IBITS]
+    idx = z3.BitVecVal(4, 16)
+    for i in (3, 2, 1, 0):
+        idx = z3.If(pend[i], z3.BitVecVal(i, 16), idx)
+    return idx, pend
+
+
+def dispatch_check(eng, b, pre_state, s, n, want_cycles, guard, allow_reads=False):
+    """violation terms for: state s (after n calls) is the documented interrupt dispatch from pre_state"""
+    v = {}
+    idx, pend = prio_terms(eng, pre_state, b)
+    pc0, sp0 = fld(eng, pre_state, b, "pc"), fld(eng, pre_state, b, "sp")
+    v["cycles"] = z3.BoolVal(n != want_cycles)
+    v["vector"] = fld(eng, s, b, "pc") != z3.BitVecVal(0x40, 16) + idx * 8
+    v["sp"] = fld(eng, s, b, "sp") != sp0 - 2
+    v["ime"] = ifld(eng, s, b, "ime")
+    ifv = []
+    for i, e in enumerate(IBITS):
+        ifv.append(ifld(eng, s, b, e + "Requested") != z3.And(ifld(eng, pre_state, b, e + "Requested"), idx != i))
+        ifv.append(ifld(eng, s, b, e + "Enabled") != ifld(eng, pre_state, b, e + "Enabled"))
+    ifv.append(ifld(eng, s, b, "ieHighBits") != ifld(eng, pre_state, b, "ieHighBits"))
+    v["if-ie"] = z3.Or(*ifv)
+    evs = bus_events(s.trace)[len(bus_events(pre_state.trace)):]
+    if len(evs) != 2 or evs[0][0] != "W" or evs[1][0] != "W":
+        v["stack"] = z3.BoolVal(True)
+    else:
+        v["stack"] = z3.Or(evs[0][1] != sp0 - 1, evs[0][2] != z3.Extract(15, 8, pc0), evs[1][1] != sp0 - 2,
+                           evs[1][2] != z3.Extract(7, 0, pc0))
+    regs = [fld(eng, s, b, r) != fld(eng, pre_state, b, r) for r in ("a", "b", "c", "d", "e", "f", "h", "l")]
+    regs += [fld(eng, s, b, "halted"), fld(eng, s, b, "haltbug") != fld(eng, pre_state, b, "haltbug"),
+             fld(eng, s, b, "stopped") != fld(eng, pre_state, b, "stopped")]
+    v["regs"] = z3.Or(*regs)
+    return {k: z3.And(guard, x) for k, x in v.items()}
+
+
+def add_group(lem, prefix, finals, mk, pre_state, info=None):
+    """merge the violation terms of all final states per aspect into one obligation each"""
+    agg = {}
+    for (s, n) in finals:
+        for k, x in mk(s, n).items():
+            agg.setdefault(k, []).append(x)
+    for k, xs in agg.items():
+        viol = z3.Or(*xs)
+        ob = lem.add("%s:%s" % (prefix, k), viol, kind="lemma", info=info or {})
+        ob.pre = pre_state
+        if concrete_bool(viol) is False:
+            ob.trivial = True
+    return agg
+
+
+def interrupt_lemmas(ctx, eng, ce):
+    lem = Lem()
+    b = make_base(ctx, eng, ce)
+    p = ctx.prog
+    # ---- L-dispatch: boundary, IME, something pending, running
+    st = b.st.fork()
+    pre = pre_regs(eng, st, b)
+    hyp = [pre["ime"], pending_term(eng, st, b), z3.Not(fld(eng, st, b, "halted")), z3.Not(fld(eng, st, b, "stopped")),
+           (pre["f"] & 0x0f) == 0] + boundary_hyps(eng, st, b)
+    for h in hyp:
+        st.pc.append(h)
+    pre_state = st.fork()
+    lem.covers.append(("lemma:dispatch#cover", pre_state.pcond()))
+    eng.terminals, eng.obligs = [], []
+    finals = run_to_boundary(ctx, eng, b, st, [])
+    if not finals:
+        lem.add("lemma:dispatch:flow", z3.BoolVal(True))
+    info = {"replay": lambda c, pr, ob, res: dispatch_replay(c, pr, ob, res)}
+    for (s, n) in finals:
+        pass
+    agg = add_group(lem, "lemma:dispatch", finals,
+                    lambda s, n: dict(dispatch_check(eng, b, pre_state, s, n, 5, s.pcond()),
+                                      **{"no-fetch": z3.And(s.pcond(), z3.BoolVal(any(e[0] == "R" for e in bus_events(s.trace))))}),
+                    pre_state, info)
+    for ob in lem.obligs:
+        ob.base, ob.eng, ob.finals = b, eng, finals
+    for t in eng.terminals:
+        lem.add("lemma:dispatch:no-panic", t.state.pcond())
+    # ---- canary: a deliberately false claim must fail (vacuity guard)
+    if finals:
+        s, n = finals[0]
+        lem.add("canary:dispatch-keeps-ime", z3.And(s.pcond(), z3.Not(ifld(eng, s, b, "ime"))), info={"canary": True})
+    # ---- L-EI-delay: EI with a request pending: the following instruction runs first, then the dispatch
+    for second, nm in ((0x00, "nop"), (0x04, "inc-b")):
+        st = b.st.fork()
+        pre = pre_regs(eng, st, b)
+        hyp = [z3.Not(pre["ime"]), pending_term(eng, st, b), z3.Not(fld(eng, st, b, "halted")), z3.Not(fld(eng, st, b, "stopped")),
+               z3.Not(fld(eng, st, b, "haltbug")), (pre["f"] & 0x0f) == 0] + boundary_hyps(eng, st, b)
+        for h in hyp:
+            st.pc.append(h)
+        pre_state = st.fork()
+        eng.terminals, eng.obligs = [], []
+        f1 = run_to_boundary(ctx, eng, b, st, [0xFB, second])
+        viol_second, viol_third = [], []
+        finals3 = []
+        for (s1, n1) in f1:
+            f2 = run_to_boundary(ctx, eng, b, s1, [0xFB, second], cycle0=n1)
+            for (s2, n2) in f2:
+                evs = bus_events(s2.trace)
+                # the instruction after EI must have been fetched from pc+1 and executed
+                ok_shape = len(evs) == 2 and evs[1][0] == "R"
+                if not ok_shape:
+                    viol_second.append(s2.pcond())
+                else:
+                    want_b = pre["b"] + 1 if second == 0x04 else pre["b"]
+                    viol_second.append(z3.And(s2.pcond(), z3.Or(evs[1][1] != pre["pc"] + 1, fld(eng, s2, b, "pc") != pre["pc"] + 2,
+                                                                fld(eng, s2, b, "b") != want_b, fld(eng, s2, b, "sp") != pre["sp"])))
+                mid = s2.fork()
+                f3 = run_to_boundary(ctx, eng, b, s2, [0xFB, second, 0x00], cycle0=n1 + n2)
+                for (s3, n3) in f3:
+                    chk = dispatch_check(eng, b, mid, s3, n3, 5, s3.pcond())
+                    viol_third.append(z3.Or(*chk.values()))
+                    finals3.append((s3, n1 + n2 + n3))
+        o1 = lem.add("lemma:ei-delay[%s]:next-instruction-runs-first" % nm, z3.Or(*viol_second) if viol_second else z3.BoolVal(True),
+                     info={"replay": lambda c, pr, ob, res: ei_replay(c, pr, ob, res)})
+        o2 = lem.add("lemma:ei-delay[%s]:then-dispatch" % nm, z3.Or(*viol_third) if viol_third else z3.BoolVal(True))
+        for ob in (o1, o2):
+            ob.pre, ob.base, ob.eng, ob.finals, ob.second = pre_state, b, eng, finals3, second
+            ob.info = dict(ob.info or {}, ninstr=3, replay=lambda c, pr, o, res: ei_replay(c, pr, o, res))
+    # ---- EI ; DI leaves interrupts disabled and nothing is dispatched
+    st = b.st.fork()
+    pre = pre_regs(eng, st, b)
+    hyp = [z3.Not(pre["ime"]), pending_term(eng, st, b), z3.Not(fld(eng, st, b, "halted")), z3.Not(fld(eng, st, b, "stopped")),
+           z3.Not(fld(eng, st, b, "haltbug")), (pre["f"] & 0x0f) == 0] + boundary_hyps(eng, st, b)
+    for h in hyp:
+        st.pc.append(h)
+    pre_state = st.fork()
+    viol = []
+    fin_ed = []
+    for (s1, n1) in run_to_boundary(ctx, eng, b, st, [0xFB, 0xF3, 0x00]):
+        for (s2, n2) in run_to_boundary(ctx, eng, b, s1, [0xFB, 0xF3, 0x00], cycle0=n1):
+            for (s3, n3) in run_to_boundary(ctx, eng, b, s2, [0xFB, 0xF3, 0x00], cycle0=n1 + n2):
+                fin_ed.append((s3, n1 + n2 + n3))
+                evs = bus_events(s3.trace)
+                shape = len(evs) == 3 and all(e[0] == "R" for e in evs)
+                viol.append(z3.And(s3.pcond(), z3.Or(z3.BoolVal(not shape), ifld(eng, s3, b, "ime"), fld(eng, s3, b, "pc") != pre["pc"] + 3,
+                                                     fld(eng, s3, b, "sp") != pre["sp"])))
+    ob = lem.add("lemma:ei-di:no-dispatch", z3.Or(*viol) if viol else z3.BoolVal(True),
+                 info={"ninstr": 3, "replay": lambda c, pr, o, res: ei_replay(c, pr, o, res)})
+    ob.pre, ob.base, ob.eng, ob.finals = pre_state, b, eng, fin_ed
+    lem.stats = dict(eng.stats)
+    return lem
+
+
+def dispatch_replay(ctx, prop, ob, res):
+    from props.cpu_replay import replay_instruction
+    return replay_instruction(ctx, prop, ob, res)
+
+
+def ei_replay(ctx, prop, ob, res):
     from props.cpu_replay import replay_instruction
     return replay_instruction(ctx, prop, ob, res)
